@@ -169,14 +169,16 @@ def c07():
     return dict(
         id="C07", level="fault_enumeration", engine="rtrsim",
         builds=[_sim_build()],
-        runs=[_sim_run("expiry", 2940, 58800), _sim_run("stops", 1600, 32000), _sim_run("conv", 800, 16000)],
+        runs=[_sim_run("expiry", 2940, 58800), _sim_run("stops", 1600, 32000), _sim_run("conv", 800, 16000), _sim_run("reload", 600, 12000)],
         floors={"c07/open_checks_past_expiry": T(2000, 40000), "c07/stop_checks": T(5000, 100000),
-                "c07/first_query_after_expiry_checks": T(500, 10000)},
+                "c07/first_query_after_expiry_checks": T(500, 10000), "c07/other_source_left_inside_a_reload": T(100, 2000)},
         rule=(SIM_RULE_COMMON + "Monitor: t_ok = virtual time of the last ESTABLISHED transition on a valid response; at every "
               "transport open() with now - t_ok > the socket's expire interval (read from struct rtr_socket at that moment) the "
               "socket's records in both tables must be gone and the first query of that connection must be a Reset Query; after "
               "every rtr_stop (issued at the k-th cancellation point: mid-response, established wait, retry sleep) no record of "
-              "the socket remains; records of the two other sources are compared at each of these points. expiry cases enumerate "
+              "the socket remains; records of the two other sources are compared at each of these points; in a third of the reload "
+              "scenarios and a quarter of the conversations one of the other sources is stopped (its records removed by source) on "
+              "the client's thread between two reads of a response, typically of a reload: they must still be gone afterwards. expiry cases enumerate "
               "7 durations x 7 failure modes (open fails, send fails, silence, fatal report, no-data report, Cache Reset + "
               "truncated reload, Cache Reset + defective reload) with small retry intervals so that connects fall on every "
               "second around the boundary. Distinct by scenario trace hash."),
